@@ -94,6 +94,17 @@ def rules():
               (fn('const int K = 5; int b = %s;' % op), True), (fn('const int K = 5; byte b = (%s) is byte;' % op), True)]
     R += [(fn('byte b = 2 + 3;'), True), (fn('const byte C = 5; byte b = C + 1;'), True), (fn('const byte C = 5; byte b = -C + 9;'), True),
           (fn('const int K = 5; g(K + K);', pre='empty g(byte x) { } empty g(string s) { }'), False)]
+    # an int constant is not byte-coercible, whatever literal it was initialised from (a character literal is an int literal too)
+    for kd in ("const int K = 5;", "const int K = 'a';", "const byte B = 'a'; const int K = B;", "const int K = 'a' is int;", "const int K = '\\n';"):
+        for use in ('K', '(K)', '+K'):
+            R += [(fn('%s byte b = %s;' % (kd, use)), False), (fn('%s return %s;' % (kd, use), ret='byte'), False),
+                  (fn('%s byte[] a = [%s];' % (kd, use)), False), (fn('%s g(%s);' % (kd, use), pre='empty g(byte x) { }'), False),
+                  (fn('%s byte b = 1; b = %s;' % (kd, use)), False), (fn('%s byte b = 1; b += %s;' % (kd, use)), False),
+                  (fn('%s byte[] a = [1, 2]; a[0] = %s;' % (kd, use)), False),
+                  (fn('%s int r = show([\'b\', %s]);' % (kd, use), pre='int show(const int[] a) { return 1; }\nstring show(const byte[] a) { return "s"; }'), True),
+                  (fn('%s int b = %s; byte c = %s is byte;' % (kd, use, use)), True)]
+        R += [('%s byte h = K;\nempty @is_you() { }' % kd, False), ('%s int h = K; byte[] hb = [1];\nempty @is_you() { }' % kd, True)]
+    R += [(fn("byte b = 'a'; const byte C = 'a'; byte d = C; byte[] e = ['a', C];"), True)]
     # a const array may not be bound to mutable storage, however the initialiser is written: bare, under an explicit cast to its own
     # type, in parentheses, through a call result; mutable local / VLA / parameter / global, local and global declarations
     for el, lit in (('int', '[1, 2]'), ('byte', '[1, 2]'), ('bool', '[true, false]'), ('string', '["a", "b"]')):
